@@ -169,8 +169,8 @@ func runRebalanceSchedule(rng *rand.Rand, dynamic bool) *c11Result {
 		}
 		var choices []string
 		// deferred timers are real: the schedule keeps at most one alive and lets it fire while streaming, where its
-		// effect is observable; notifications inside the close step are taken in the first cycle only (they wait for the lock)
-		notifyOK := step < nOps && deferred == 0 && !(phase == "closing" && timer != "nil")
+		// effect is observable
+		notifyOK := step < nOps && deferred == 0
 		if notifyOK {
 			choices = append(choices, "notify", "notify")
 		}
@@ -224,13 +224,14 @@ func runRebalanceSchedule(rng *rand.Rand, dynamic bool) *c11Result {
 				}
 				startCycleExpected()
 				emit("notify", gal.App("Notify", gal.N(uint64(info))), d.Hand.Take())
-			case phase == "closing" && timer == "nil":
+			case phase == "closing":
+				// the close step is running: the notification finds nothing to do (the reopen reads the latest membership)
 				select {
 				case <-done:
-					res.Notes = append(res.Notes, "a notification during the first close returned instead of waiting for the lock")
-				case <-time.After(40 * time.Millisecond):
+				case <-time.After(500 * time.Millisecond):
+					res.Notes = append(res.Notes, "a notification during the close step did not return")
+					blocked++
 				}
-				blocked++
 				emit("notify", gal.App("Notify", gal.N(uint64(info))), d.Hand.Take())
 			default:
 				select {
@@ -340,7 +341,7 @@ func runRebalanceSchedule(rng *rand.Rand, dynamic bool) *c11Result {
 				case <-time.After(2 * time.Millisecond):
 				}
 			}
-			phase = "open"
+			phase, timer = "open", "nil"
 			if blocked > 0 {
 				blocked--
 				if !waitHeld("BeforeStreamStop", 2*time.Second) {
@@ -386,6 +387,7 @@ func runRebalanceSchedule(rng *rand.Rand, dynamic bool) *c11Result {
 	default:
 	}
 	res.Burst = bursts
+	_ = timer
 	res.LastInfo = info
 	_ = initial
 	res.Term = gal.Tuple(gal.N(uint64(initial)), gal.List(ops), gal.List(outs), gal.Tuple(gal.Nat(res.Cycles), gal.N(uint64(res.Range)), gal.Bool(res.Open)))
